@@ -25,7 +25,7 @@ What is proved, for every input triple (every projective representation):
   identity `(x³+A'x+B')·YN²·XD³ = (XN³+b·XD³)·YD²` checked by the kernel on the coefficient lists
   (`Iso.iso11_ident`, `Iso.iso3_ident`).
 
-Carried by a theorem for the 3-isogeny of G2 only (PP.Props.C16Hom.iso3_hom), NOT for the 11-isogeny of G1: the homomorphism law `iso (P + Q) = iso P + iso Q` (with `+` the group
+Carried by theorems elsewhere (PP.Props.C16Hom.iso3_hom, PP.Props.C16Hom11.iso11_hom), not in this file: the homomorphism law `iso (P + Q) = iso P + iso Q` (with `+` the group
 law of `E'`, which has `a ≠ 0`).  The general fact (a non-constant morphism of elliptic curves
 preserving the identity is a homomorphism) is not in Mathlib, and a direct algebraic certificate
 for the degree-11 map is out of reach; this clause of C16 rests on differential testing only.
